@@ -10,7 +10,7 @@ import vlib
 import sesslib
 from vlib import ToolError, log
 
-PUPPETS_QUICK = ["rec1", "loop2"]
+PUPPETS_QUICK = ["rec1", "loop2", "gen3"]
 PUPPETS_ALL = ["rec1", "loop2", "gen3", "mut4", "deep6"]
 
 # which verdict classes belong to which property
